@@ -150,6 +150,9 @@ def run(tier, seed, replay=None):
     # whenever rustc accepts that and no probe satisfies two blocks, the macro must accept the invocation and its expansion compile
     from .. import progcheck as PC
     iplans = [g.inherent() for _ in range(n // 5)]
+    for p_ in iplans:
+        if rng.random() < 0.4:
+            p_.items.append(("gfn", "mkarr", False))      # generic method, const parameter declared before the type parameter (seeded change C03h)
     for ev in PC.evaluate(so, iplans):
         plan = ev.plan
         if not ev.shadow_ok or ev.overlap_probes():
